@@ -198,7 +198,8 @@ def run(ctx):
             raise AnalysisError(f"get_big_edges_df: column '{name}' not found - re-bind the anchor")
         rules.decide_equal(ctx, "FORM", f"{bd.qualname} / FORM / column '{name}'", ctx.where(bd), got_b[name], want, f"column '{name}'")
     c2 = got_b.get("cell2")
-    ok2 = c2 is not None and any(y == T.idx(T.attr(T.idx(("bv", c2[2]) if c2[0] == "loopres" else b0, T.num(1)), "own_cells"), T.num(1)) for y in T.subterms(c2))
+    lb = ("bv", c2[2]) if c2 is not None and c2[0] == "loopres" else b0
+    ok2 = c2 is not None and any(y in (T.idx(T.attr(T.idx(lb, T.num(1)), "own_cells"), T.num(1)), T.idx(T.attr(lb, "own_cells"), T.num(1))) for y in T.subterms(c2))
     ctx.check(ok2, "FORM", f"{bd.qualname} / FORM / column 'cell2' = second own cell (or -1)", ctx.where(bd), "own_cells[1]", "column 'cell2' is not the interface's second cell")
 
     # returned bins_centers == selection centres
